@@ -398,6 +398,19 @@ pub fn rustc_cannot_infer(spec_name: &str, shape: Shape) -> bool {
     }
 }
 
+/// Names (and programs) of the excluded shape variants, for the C22 observation list.
+pub fn excluded_rustc() -> Vec<(String, Prog)> {
+    let mut out = vec![];
+    for spec in op_specs() {
+        for shape in Shape::all(spec.op.n_in()) {
+            if rustc_cannot_infer(&spec.name, shape) {
+                out.push((format!("{}/{}", spec.name, shape.name()), build_op_prog(&spec, shape)));
+            }
+        }
+    }
+    out
+}
+
 /// Development aid: building with `VF_DFIR_SUBSET=1` in the environment compiles only the base
 /// shapes and the depth-0 blocking programs (fast turnaround while editing operator templates).
 /// The registered checks are built without it.
